@@ -4,6 +4,7 @@ package props
 
 import (
 	"fmt"
+	"sync"
 
 	"github.com/creachadair/mds/queue"
 	"verif/harness/fw"
@@ -18,7 +19,7 @@ func init() {
 		ID: "C07",
 		Meta: func(tier string) fw.Meta {
 			return fw.Meta{
-				Flavours: []string{"plain", "cover"},
+				Flavours: []string{"plain", "race", "cover"},
 				Blocks:   16,
 				Procs:    16,
 				Rule: "case = (constructor, operation history over Add/Push/Pop/PopLast/Clear); three generators: " +
@@ -26,7 +27,7 @@ func init() {
 					"(b) exhaustive enumeration of all histories up to a length bound over {Add,Push,Pop,PopLast} for preallocated sizes 0..4, " +
 					"(c) PRNG histories of 20..300 ops with phase-switching op mixes. After EVERY op: Len, IsEmpty, Front, Slice, Each (with early stop), Peek(n) for all n in [-Len-2, Len+1]. " +
 					"distinct = distinct (constructor, history) hashes; non-trivial = the history contained at least one wrap of the ring indices or a regrow while head > 0 (seen through the VerifState hook)",
-				Required:     []string{"rotate_then_grow_add", "rotate_then_grow_push", "backward_wrap_push", "forward_wrap_add", "pop_to_empty", "steps", "large_capacity_scenarios", "element_type_checks"},
+				Required:     []string{"rotate_then_grow_add", "rotate_then_grow_push", "backward_wrap_push", "forward_wrap_add", "pop_to_empty", "steps", "large_capacity_scenarios", "element_type_checks", "sparse_observation_histories", "concurrent_instance_histories"},
 				Exhaustive:   true,
 				Assumptions:  []string{"reference model: Go slice with append/prepend/pop semantics", "hook queue.VerifState used for reach counters only, never for verdicts"},
 				CoverPkgs:    []string{"github.com/creachadair/mds/queue", "github.com/creachadair/mds/slice"},
@@ -57,6 +58,12 @@ type c07case struct {
 // c07run executes one history against the real queue and the reference and
 // returns whether it was non-trivial. It reports at most one violation.
 func c07run(c *fw.Ctx, ctorSize int, ops []c07op, light bool) (nontrivial bool, ok bool) {
+	return c07runMode(c, ctorSize, ops, light, false)
+}
+
+// c07runMode: with sparse set, nothing is read between operations except every
+// 211th step and at the end (only the results of Pop/PopLast are observed).
+func c07runMode(c *fw.Ctx, ctorSize int, ops []c07op, light, sparse bool) (nontrivial bool, ok bool) {
 	var q *queue.Queue[int]
 	var ctor string
 	switch {
@@ -84,6 +91,9 @@ func c07run(c *fw.Ctx, ctorSize int, ops []c07op, light bool) (nontrivial bool, 
 	okAll := true
 	grew := false
 	check := func() bool {
+		if sparse && len(log)%211 != 0 && len(log) != len(ops) {
+			return true
+		}
 		if light && !grew && len(log)%509 != 0 {
 			// light mode (large scripted scenarios): constant-time observations on
 			// every step, the full comparison after every regrow and every 509 steps
@@ -272,7 +282,43 @@ func c07hash(ctor int, ops []c07op) uint64 {
 	return h.Sum()
 }
 
+// c07concurrent: separate queues used by separate goroutines at the same time
+// (instances share nothing, so each must behave exactly as it does alone).
+func c07concurrent(c *fw.Ctx, base int) {
+	for k := 0; k < c.Pick(3, 30); k++ {
+		var wg sync.WaitGroup
+		for g := 0; g < 8; g++ {
+			cc := c.Fork(base + 8*k + g)
+			if cc == nil {
+				continue
+			}
+			wg.Add(1)
+			go func(cc *fw.Ctx) {
+				defer wg.Done()
+				r := cc.Rng()
+				ops := make([]c07op, 200+r.IntN(400))
+				for i := range ops {
+					ops[i] = c07op(r.IntN(4))
+					if r.IntN(50) == 0 {
+						ops[i] = qClear
+					}
+				}
+				okRun, pv, _ := fw.Try(func() { c07runMode(cc, r.IntN(12)-2, ops, false, r.IntN(2) == 0) })
+				if !okRun {
+					cc.FailKind("panic", map[string]any{"phase": "concurrent instances"}, "panic: %v", pv)
+				}
+			}(cc)
+		}
+		wg.Wait()
+		c.Add("concurrent_instance_histories", 8)
+	}
+}
+
 func runC07(c *fw.Ctx) {
+	c07concurrent(c, 1<<22)
+	if c.Flavour == "race" {
+		return
+	}
 	idx := 0
 	light := false
 	runCase := func(ctor int, ops []c07op, enum bool) {
@@ -517,7 +563,10 @@ func runC07(c *fw.Ctx) {
 		// undo Begin's bookkeeping double count: runCase calls Begin again, so
 		// run inline instead.
 		var nt bool
-		okRun, pv, stack := fw.Try(func() { nt, _ = c07run(c, ctor, ops, false) })
+		okRun, pv, stack := fw.Try(func() { nt, _ = c07runMode(c, ctor, ops, false, k%3 == 0) })
+		if k%3 == 0 {
+			c.Add("sparse_observation_histories", 1)
+		}
 		if !okRun {
 			c.FailKind("panic", map[string]any{"ctor": ctor, "nops": len(ops)}, "panic: %v\n%s", pv, stack)
 		}
